@@ -84,7 +84,14 @@ def main(argv):
                 continue  # a later fix: rewrote the code the change touched (see the entry's note)
             if len(argv) > 1 and os.path.basename(d) not in argv[1:]:
                 continue
-            prepare(os.path.join(d, "patch.diff"))
+            try:
+                prepare(os.path.join(d, "patch.diff"))
+            except SystemExit as e:
+                # the tree moved on under the change (a later fix: rewrote the lines it touches)
+                res = {ids[0]: {"exit": -1, "signatures": ["patch does not apply to the current tree: " + str(e)[:80]], "wall_s": 0, "tail": ""}}
+                rows.append((os.path.basename(d), meta, res))
+                print(os.path.basename(d), "patch does not apply")
+                continue
             res = run_checks(ids)
             rows.append((os.path.basename(d), meta, res))
             print(os.path.basename(d), {k: v["exit"] for k, v in res.items()})
